@@ -1,7 +1,7 @@
 (* C13 — Optimize drops only unreachable definitions; RemoveStyling drops only styling. *)
 From Coq Require Import List ZArith NArith.
 From Astisub Require Import Kit.Base Model.Ops Proofs.OptimizeProofs.
-From Astisub Require Kit.Str Kit.Xml Kit.XmlParse Model.Ttml Model.TtmlOpt Proofs.TtmlDocSpec Proofs.TtmlOptProofs.
+From Astisub Require Kit.Str Kit.Xml Kit.XmlParse Model.Ttml Model.TtmlOpt Proofs.TtmlDocSpec Proofs.TtmlOptProofs Model.TtmlGo Proofs.TtmlGoProofs.
 Import ListNotations.
 
 (* a list with at least one cue: a style definition survives iff its identifier is reachable from a
@@ -79,7 +79,7 @@ Print Assumptions C13_remove_styling.
    In a module of its own because Model/Ttml.v and Model/Ops.v share record and constructor names. ---- *)
 Module C13_TTML.
 Import Astisub.Kit.Str Astisub.Kit.Xml Astisub.Kit.XmlParse Astisub.Model.Ttml Astisub.Model.TtmlOpt
-  Astisub.Proofs.TtmlDocSpec Astisub.Proofs.TtmlOptProofs.
+  Astisub.Proofs.TtmlDocSpec Astisub.Proofs.TtmlOptProofs Astisub.Model.TtmlGo Astisub.Proofs.TtmlGoProofs.
 Theorem C13_ttml_styles_exact : forall d kv, td_items d <> [] ->
   In kv (td_styles (ttml_optimize d)) <-> In kv (td_styles d) /\ topt_reach_style d (ts_id (snd kv)).
 Proof. exact ttml_optimize_styles_exact. Qed.
@@ -93,14 +93,16 @@ Theorem C13_ttml_repr : forall d, repr_doc d = true -> repr_doc (ttml_optimize d
 Proof. exact ttml_optimize_repr. Qed.
 (* "the optimized list can still be written and read back with the same cues as before", for TTML, through bytes:
    writer bytes, XML parser model, reader, for every indent option made of white space *)
-Theorem C13_ttml_write_read : forall d ind, repr_doc d = true -> indent_ok ind = true ->
+Theorem C13_ttml_write_read : forall d ind, repr_doc d = true -> legal_doc d = true -> indent_ok ind = true ->
   exists b t b' t',
-    write_ttml_bytes ind d = Ok b /\ xml_parse b = Some t /\ read_ttml t = Ok (written_value d) /\
-    write_ttml_bytes ind (ttml_optimize d) = Ok b' /\ xml_parse b' = Some t' /\
+    write_ttml_bytes_go ind d = Ok b /\ xml_parse b = Some t /\ read_ttml t = Ok (written_value d) /\
+    write_ttml_bytes_go ind (ttml_optimize d) = Ok b' /\ xml_parse b' = Some t' /\
     read_ttml t' = Ok (written_value (ttml_optimize d)) /\
     td_items (written_value (ttml_optimize d)) = td_items (written_value d) /\
     td_meta (written_value (ttml_optimize d)) = td_meta (written_value d).
-Proof. exact ttml_optimize_cues. Qed.
+Proof. exact ttml_optimize_cues_go. Qed.
+(* ([write_ttml_bytes_go]: the bytes as Go's encoder writes them; [legal_doc]: every string XML-legal - otherwise the
+   encoder substitutes U+FFFD and the text read back differs; legality survives Optimize: [ttml_optimize_legal]) *)
 Example C13_ttml_example : repr_doc topt_ex_doc = true /\ repr_doc (ttml_optimize topt_ex_doc) = true.
 Proof. split; vm_compute; reflexivity. Qed.
 End C13_TTML.
